@@ -6,7 +6,7 @@ SPEC = {
     'technique': 'symbolic execution of find_groups / _merge_close_groups / metarize(groups) on constructed post-slicing '
                  'states and of find_layers / ncomp_from_gmm / metarize(layers) on the thirty-hit construction; separation '
                  'of the reported bases decided per path by z3 (nonlinear real arithmetic)',
-    'bounds': {'quick': 'groups: post-slicing states of <= 4 hits in <= 3 slices, any heights, MIN_SEP_VALS/LIMS with two symbolic '
+    'bounds': {'quick': 'groups: post-slicing states of <= 3 hits in <= 3 slices, any heights, MIN_SEP_VALS/LIMS with two symbolic '
                         'bins, percentile, MAX_HITS_OKTA0 and an exclusion list that may empty a group (two ceilometers); whole '
                         'chain on <= 2 hits; layers: 30-hit group on 3 heights, rows ascending/descending in time, look-back 20/100, '
                         'any labelling / scores / minimum separation, no re-merge',
@@ -30,7 +30,7 @@ def h_layer(E, order, extra, lbv):
 
 
 HARNESSES = [
-    H('H-sep-groups', h_group, quick=[('01', 4), ('01', 6), ('012', 4), ('012', 6), ('0012', 4)],
+    H('H-sep-groups', h_group, quick=[('01', 4), ('01', 6), ('012', 4), ('012', 6), ('001', 6)],
       thorough=[(sh, p) for sh in ('01', '012', '001', '011', '0012', '0122') for p in (4, 6)] + [('0123', 4)],
       float_model='R', cover=['two groups reported', 'a merge happened'],
       assumptions=['state after slicing constructed directly; per-bundle clustering answers an arbitrary partition'],
